@@ -149,6 +149,11 @@ func cmdReplay(args []string) {
 	rep.Emit()
 }
 
+// hasBad: the document carries an injected directive defect (spec: field `bad` of a selection).
+func hasBad(c *gq.Case) bool {
+	return strings.Contains(vh.JS(c.Doc), `"bad":"`+"u") || strings.Contains(vh.JS(c.Doc), `"bad":"`+"m") || strings.Contains(vh.JS(c.Doc), `"bad":"`+"d")
+}
+
 // reflOnly: families about interface / union typed fields need Go type bindings (documented limitation of the other strategies).
 func reflOnly(fam string) bool {
 	return fam == "abstract" || fam == "defectabs" || fam == "absops" || fam == "forms"
@@ -839,6 +844,9 @@ func cmdEnvelope(args []string) {
 				rejected = rejected && !c.ExpK.HasData
 			}
 			sk["rejected"] = rejected
+			if hasBad(c) {
+				sk["offLines"] = gq.BadLines(text) // where the injected directive defect stands in this layout
+			}
 			sk["text"] = text
 			sk["layout"] = li
 			_ = enc.Encode(sk)
